@@ -1,16 +1,21 @@
 
 (* C09 correspondence: model (Model/TxVerify.v) vs the observed verdicts of
    coin.Transaction.Verify / VerifyUnsigned / VerifyInputSignatures *)
-Definition c09_corr (c : txn * res error * res error) : bool :=
-  let '(t, os, ou) := c in
-  res_e_matches (verify true t) os && res_e_matches (verify false t) ou.
+(* a case is a transaction and a HISTORY of verifier calls (signed?, result) made on
+   it in that order (with other transactions verified before and after): the model
+   is a pure function, every call must give its verdict for that call alone *)
+Definition c09_corr (c : txn * list (bool * res error)) : bool :=
+  let '(t, calls) := c in
+  let vt := verify true t in
+  let vf := verify false t in
+  forallb (fun k : bool * res error => res_e_matches (if fst k then vt else vf) (snd k)) calls.
 Definition mism_txn := Eval vm_compute in failing c09_corr cases_txn.
 Print mism_txn.
 Definition mism_big := Eval vm_compute in failing c09_corr cases_big.
 Print mism_big.
 (* VerifyInputSignatures cases refer to the transaction of cases_txn by index *)
 Definition txn_at (i : Z) : option txn :=
-  match nth_error cases_txn (Z.to_nat i) with Some (t, _, _) => Some t | None => None end.
+  match nth_error cases_txn (Z.to_nat i) with Some (t, _) => Some t | None => None end.
 Definition mism_vis := Eval vm_compute in
   failing (fun c : Z * list (Z * Z) * res error =>
     let '(i, ux, o) := c in
@@ -18,8 +23,8 @@ Definition mism_vis := Eval vm_compute in
 Print mism_vis.
 (* the encoded size reported by the implementation follows the wire layout *)
 Definition mism_size := Eval vm_compute in
-  failing (fun c : txn * res error * res error =>
-    let '(t, _, _) := c in
+  failing (fun c : txn * list (bool * res error) =>
+    let '(t, _) := c in
     match t_size t with
     | Some s => s =? 49 + 65 * len (t_sigs t) + 32 * len (t_ins t) + 37 * len (t_outs t)
     | None => true
